@@ -115,6 +115,7 @@ type Report struct {
 	knownSeen   map[string]int64
 	maxSamples  int
 	replay      *replayReq
+	MaxParallel int      // RunWorkers: at most this many worker processes at a time (0 = all at once)
 	crash       string   // worker: panic caught by Guard
 	workerFail  []string // workers that died without a report; judged in Finish after the others were merged
 }
@@ -363,8 +364,19 @@ func (r *Report) RunWorkers(n int, extraArgs ...string) {
 		err error
 	}
 	ch := make(chan res, n)
+	par := r.MaxParallel
+	if par <= 0 || par > n {
+		par = n
+	}
+	sem := make(chan struct{}, par)
 	for k := 0; k < n; k++ {
 		go func(k int) {
+			sem <- struct{}{}
+			defer func() { <-sem }()
+			if time.Until(r.deadline) < time.Second {
+				ch <- res{k, []byte("PARTIAL {\"exhaustive\":false,\"capped\":\"deadline reached before this shard was started\"}\n"), nil}
+				return
+			}
 			args := []string{"-tier", r.Tier, "-budget", time.Until(r.deadline).String(), "-worker", strconv.Itoa(k), "-nworkers", strconv.Itoa(n)}
 			args = append(args, extraArgs...)
 			if r.replay != nil {
